@@ -323,6 +323,9 @@ class Renderer:
             elif k == "Match":
                 n["ord"] = cnt.get("match", 0)
                 cnt["match"] = n["ord"] + 1
+            elif k == "Arm":
+                n["ord"] = cnt.get("arm", 0)
+                cnt["arm"] = n["ord"] + 1
             elif k == "MethodCall":
                 key = "call:" + n["method"]
                 n["ord"] = cnt.get(key, 0)
@@ -406,6 +409,9 @@ class Renderer:
         body = self.render_children(n, n["body"][0], n["body"][1])
         tail = self.render_children(n, n["body"][1], n["e"])
         h, self.hoist = self.hoist, saved
+        entry = self.stmt_text("arm", str(n.get("ord", -1)), "entry")
+        if entry:
+            h = h + [entry]
         if h:
             return head + "{ " + "".join(h) + body + " }" + tail
         return head + body + tail
@@ -541,7 +547,8 @@ class Renderer:
                 out = out.replace(ptxt, "Some(__ref_%s)" % x, 1)
                 extra = "let %s = *__ref_%s;\n" % (x, x)
                 self.log.append("R17 reference pattern Some(&%s) -> explicit dereference" % x)
-        out += self.render_block(then, extra + self.stmt_text("if", k, "then_entry"), self.stmt_text("if", k, "then_exit"))
+        out += self.render_block(then, extra + self.stmt_text("if", k, "then_entry"), self.stmt_text("if", k, "then_exit"),
+                                 unit="else" not in n)     # an `if` without `else` has unit type
         if "else" in n:
             out += self.t(n["then"][1], n["else"][0])
             els = self.find(n, n["else"])
